@@ -163,7 +163,8 @@ Definition init_heap (n : nat) : heap := Heap (fresh_cells n 1) 0 [] (1 + N.of_n
 Record gstate := GState {
   gheap : heap;
   handles : list (option addr);                       (* the embedder's handle table *)
-  globals : list (text * list (text * addr));         (* module name -> definitions (each holds a handle) *)
+  globals : list (text * text * addr);                (* (module, name, value): each entry holds a handle *)
+  gmods : list text;                                  (* the modules that exist *)
   gcur : text
 }.
 
@@ -192,8 +193,12 @@ Fixpoint assoc_t {A} (k : text) (l : list (text * A)) : option A :=
 Fixpoint remove_t {A} (k : text) (l : list (text * A)) : list (text * A) :=
   match l with [] => [] | (k', v) :: r => if text_eqb k k' then remove_t k r else (k', v) :: remove_t k r end.
 
+Definition same_key (m n : text) (e : text * text * addr) : bool := text_eqb (fst (fst e)) m && text_eqb (snd (fst e)) n.
+Definition in_module (m : text) (e : text * text * addr) : bool := text_eqb (fst (fst e)) m.
+Fixpoint mem_text_l (k : text) (l : list text) : bool := match l with [] => false | x :: r => text_eqb k x || mem_text_l k r end.
+
 Definition push_handle (g : gstate) (h : heap) (a : addr) : gstate :=
-  GState (incr a h) (handles g ++ [Some a]) (globals g) (gcur g).
+  GState (incr a h) (handles g ++ [Some a]) (globals g) (gmods g) (gcur g).
 
 Definition alloc_op (p : policy) (g : gstate) (k : kind) (pl : text) (ks : list addr) : option gstate :=
   match allocate p (gheap g) k pl ks with
@@ -248,7 +253,7 @@ Definition step (p : policy) (g : gstate) (o : hop) : option gstate :=
     end
   | HClone i => match handle_addr g (Some i) with Some a => Some (push_handle g h a) | None => None end
   | HDrop i => match nth_error (handles g) i with
-               | Some (Some a) => Some (GState (decr a h) (firstn i (handles g) ++ None :: skipn (S i) (handles g)) (globals g) (gcur g))
+               | Some (Some a) => Some (GState (decr a h) (firstn i (handles g) ++ None :: skipn (S i) (handles g)) (globals g) (gmods g) (gcur g))
                | _ => None
                end
   | HCar i | HCdr i =>
@@ -287,25 +292,21 @@ Definition step (p : policy) (g : gstate) (o : hop) : option gstate :=
   | HDefine name i =>
     match handle_addr g i with
     | Some a =>
-      let defs := match assoc_t (gcur g) (globals g) with Some d => d | None => [] end in
       let h1 := incr a h in
-      let h2 := match assoc_t name defs with Some old => decr old h1 | None => h1 end in
-      Some (GState h2 (handles g) ((gcur g, (name, a) :: remove_t name defs) :: remove_t (gcur g) (globals g)) (gcur g))
+      let h2 := match find (same_key (gcur g) name) (globals g) with Some (_, _, old) => decr old h1 | None => h1 end in
+      Some (GState h2 (handles g) ((gcur g, name, a) :: filter (fun e => negb (same_key (gcur g) name e)) (globals g)) (gmods g) (gcur g))
     | None => None
     end
   | HUndefine name =>
-    let defs := match assoc_t (gcur g) (globals g) with Some d => d | None => [] end in
-    let h1 := match assoc_t name defs with Some old => decr old h | None => h end in
-    Some (GState h1 (handles g) ((gcur g, remove_t name defs) :: remove_t (gcur g) (globals g)) (gcur g))
+    let h1 := match find (same_key (gcur g) name) (globals g) with Some (_, _, old) => decr old h | None => h end in
+    Some (GState h1 (handles g) (filter (fun e => negb (same_key (gcur g) name e)) (globals g)) (gmods g) (gcur g))
   | HDefmodule name =>
-    let old := match assoc_t name (globals g) with Some d => d | None => [] end in
-    Some (GState (fold_left (fun h' d => decr (snd d) h') old h) (handles g) ((name, []) :: remove_t name (globals g)) name)
+    let old := filter (in_module name) (globals g) in
+    Some (GState (fold_left (fun h' e => decr (snd e) h') old h) (handles g) (filter (fun e => negb (in_module name e)) (globals g))
+                 (name :: gmods g) name)
   | HSetmodule name =>
-    match assoc_t name (globals g) with
-    | Some _ => Some (GState h (handles g) (globals g) name)
-    | None => None
-    end
-  | HCollect => match collect p h with Some h1 => Some (GState h1 (handles g) (globals g) (gcur g)) | None => None end
+    if mem_text_l name (gmods g) then Some (GState h (handles g) (globals g) (gmods g) name) else None
+  | HCollect => match collect p h with Some h1 => Some (GState h1 (handles g) (globals g) (gmods g) (gcur g)) | None => None end
   end.
 
-Definition init_gstate (n : nat) : gstate := GState (init_heap n) [] [(s "default", [])] (s "default").
+Definition init_gstate (n : nat) : gstate := GState (init_heap n) [] [] [s "default"] (s "default").
